@@ -195,12 +195,19 @@ def pedal_query(feature, pol, thr, R):
     return bool(fb), line or 0
 
 
-def observe(src, feature, queries):
-    """-> (oracle lines, found or None, [(pol, thr, fired, line)])"""
-    from pedal.core.report import MAIN_REPORT as R
+def observe(src, feature, queries, decoy=None):
+    """-> (oracle lines, found or None, [(pol, thr, fired, line)])
+    decoy: the program is put on a Report object of its own while the GLOBAL report holds `decoy` (another program)."""
+    from pedal.core.report import MAIN_REPORT, Report
     from pedal.core.commands import clear_report, contextualize_report
     clear_report()
-    contextualize_report(src)
+    if decoy is None:
+        R = MAIN_REPORT
+        contextualize_report(src)
+    else:
+        contextualize_report(decoy)
+        R = Report()
+        contextualize_report(src, report=R)
     tree = ast.parse(src)
     lines = oracle(tree, feature)
     found = pedal_find(feature, R)
@@ -236,6 +243,21 @@ def replay_chunk(cases, extra):
             out.append({"q": q, "source": src, "kind": "found", "observed": found, "expected": q["count"], "oracle_lines": lines})
         elif fired and pol == "prevent" and line and line not in lines:
             out.append({"q": q, "source": src, "kind": "line", "observed": line, "expected": lines, "oracle_lines": lines})
+        if q["count"] == 0 and not q["f"].startswith("import"):
+            # the same question about a submission with NO statement at all, held by a Report object of its own, while the
+            # global report holds a program full of occurrences: the answer is about the submission asked about
+            bare = "# nothing written yet\n"
+            decoy = concretise(dict(q, count=3))
+            try:
+                lines2, found2, res2 = observe(bare, q["f"], [(q["pol"], q["thr"])], decoy=decoy)
+            except Exception as e:
+                out.append({"q": q, "source": bare, "kind": "raised", "detail": "(own report) %s: %s" % (type(e).__name__, e)})
+                continue
+            fired2 = res2[0][2]
+            want2 = (q["pol"] == "ensure" and q["thr"] > 0) or (q["pol"] == "prevent" and q["thr"] < 0)
+            if fired2 != want2 or (found2 is not None and found2 != 0):
+                out.append({"q": q, "source": bare, "kind": "fires" if fired2 != want2 else "found", "observed": fired2 if fired2 != want2 else found2,
+                            "expected": want2 if fired2 != want2 else 0, "oracle_lines": [], "own_report": True, "decoy": decoy})
     return out
 
 
